@@ -43,6 +43,9 @@ func (tp *IOTaskPool) Stop() {
 //
 //go:norace
 func NewIO(concurrent, queueSize, bufSize int, v ...interface{}) *IOTaskPool {
+	if bufSize <= 0 {
+		bufSize = 1024 * 64
+	}
 	task := New(concurrent, queueSize, v...)
 
 	tp := &IOTaskPool{
